@@ -242,6 +242,9 @@ pub struct VerModel {
     /// the version is held (applied/cleared) but its buffered rows / seq rows are
     /// still on disk, waiting for the clear-buffer pass
     pub stale_rows: bool,
+    /// applied (its changes are in the tables) but listed as partial again after a
+    /// restart that found stale, non-covering seq rows (known finding)
+    pub reverted: bool,
 }
 
 impl VerModel {
@@ -282,6 +285,7 @@ impl ActorModel {
                 // buffered chunks stay on disk until the clear pass
                 vm.state = state;
                 vm.stale_rows = true;
+                vm.reverted = false;
             }
             _ => {
                 self.versions.insert(
@@ -293,6 +297,7 @@ impl ActorModel {
                         changes: BTreeMap::new(),
                         last_seq_conflict: false,
                         stale_rows: false,
+                        reverted: false,
                     },
                 );
             }
